@@ -2,6 +2,6 @@ SPECIFICATION Spec
 CONSTANTS
   MaxN = 3
   Guarded = TRUE
-INVARIANTS AssumePre EmitInv
+INVARIANTS AssumePre NoDoubleDrop CompletedNoLeak EmitInv
 CONSTRAINT SpinBound
 CHECK_DEADLOCK FALSE
